@@ -52,6 +52,10 @@ func c02Compositions(keyA, keyB string, maxLen int) []c02Comp {
 	if maxLen >= 4 {
 		out = append(out, c02Comp{"disc,disc+nonrev,issue,disc+range@ABBA", []vsSpec{mk(vsDisc, keyA), mk(vsDiscNonrev, keyB), mk(vsIssue, keyB), mk(vsDiscRange, keyA)}})
 	}
+	// a long list (7 members, more than 40 challenge contributions): everything that is bound for short
+	// lists must be bound for the members at the far end of a long one as well
+	out = append(out, c02Comp{"long:nonrev,range,nonrev,range,nonrev,disc,issue@ABABABA", []vsSpec{mk(vsDiscNonrev, keyA), mk(vsDiscRange, keyB), mk(vsDiscNonrev, keyA),
+		mk(vsDiscRange, keyB), mk(vsDiscNonrev, keyA), mk(vsDisc, keyB), mk(vsIssue, keyA)}})
 	return out
 }
 
@@ -63,7 +67,7 @@ func c02FlipBit(v *big.Int, i int) *big.Int {
 func c02Run(t *testing.T, sub, keyA, keyB string, maxLen int, bitStride int, qb, tb time.Duration) {
 	r := vkit.Start(t, "C02", sub, qb, tb)
 	defer r.Finish()
-	r.Rule = "compositions of 1..4 builders (disclosure, +nonrev, +range, issuance, +blind) over 1-2 keys x both session kinds; neighbours: every single-bit flip (stride s) of context and nonce, +-1, 0, swapped, flag flipped, every key permutation/substitution, every list permutation (keys alike or not), every proper sub-list, every duplication, every splice with a list of another session, empty list; also each ProofD/ProofU singly; non-trivial = neighbour that differs from (T,L) by value; oracle: accepted iff unchanged"
+	r.Rule = "compositions of 1..4 builders and one of 7 (more than 40 challenge contributions) (disclosure, +nonrev, +range, issuance, +blind) over 1-2 keys x both session kinds; neighbours: every single-bit flip (stride s) of context and nonce, +-1, 0, swapped, flag flipped, every key permutation/substitution, every list permutation (keys alike or not), every proper sub-list (for the long list: neighbour transpositions, end swap, reversal; prefixes, suffixes, one member dropped), every duplication, every splice with a list of another session, empty list; also each ProofD/ProofU singly; non-trivial = neighbour that differs from (T,L) by value; oracle: accepted iff unchanged"
 	vfInstallEnv(t, "C02/"+sub, r.Seed)
 	secrets := []*big.Int{vfTag("c02-secret")}
 	r.Bounds["bit_stride"] = bitStride
@@ -156,7 +160,29 @@ func c02Run(t *testing.T, sub, keyA, keyB string, maxLen int, bitStride int, qb,
 				try(fmt.Sprintf("key dropped:%d", i), true, L, ks2, ctx, nonce, issig)
 			}
 			try("key appended", true, L, append(append([]*gabikeys.PublicKey{}, pks...), pks[0]), ctx, nonce, issig)
-			for _, perm := range vfPerms(n) {
+			perms := vfPerms(min(n, 4))
+			if n > 4 {
+				// long lists: transpositions of neighbours, of the two ends, and the reversal instead of all n!
+				perms = nil
+				ident := make([]int, n)
+				for i := range ident {
+					ident[i] = i
+				}
+				for i := 0; i+1 < n; i++ {
+					q := append([]int{}, ident...)
+					q[i], q[i+1] = q[i+1], q[i]
+					perms = append(perms, q)
+				}
+				q := append([]int{}, ident...)
+				q[0], q[n-1] = q[n-1], q[0]
+				perms = append(perms, q)
+				rev := make([]int, n)
+				for i := range rev {
+					rev[i] = n - 1 - i
+				}
+				perms = append(perms, rev)
+			}
+			for _, perm := range perms {
 				id := true
 				for i, p := range perm {
 					if p != i {
@@ -182,6 +208,34 @@ func c02Run(t *testing.T, sub, keyA, keyB string, maxLen int, bitStride int, qb,
 			}
 			// sub-lists (proper, non-empty) and the empty list
 			for m := 0; m < 1<<n-1; m++ {
+				if n > 4 {
+					// long lists: prefixes, suffixes and lists with one member dropped instead of all 2^n
+					drop, contiguous := 0, true
+					seen0 := false
+					for i := 0; i < n; i++ {
+						if m&(1<<i) == 0 {
+							drop++
+						}
+					}
+					lo, hi := -1, -1
+					for i := 0; i < n; i++ {
+						if m&(1<<i) != 0 {
+							if lo < 0 {
+								lo = i
+							}
+							hi = i
+						}
+					}
+					for i := lo; i >= 0 && i <= hi; i++ {
+						if m&(1<<i) == 0 {
+							contiguous = false
+						}
+					}
+					_ = seen0
+					if !(drop == 1 || m == 0 || contiguous && (lo == 0 || hi == n-1)) {
+						continue
+					}
+				}
 				var pl ProofList
 				var ks []*gabikeys.PublicKey
 				for i := 0; i < n; i++ {
